@@ -204,11 +204,12 @@ func runC11(t *testing.T, c *c11Case, known func(string) bool) (out c11Outcome) 
 			}
 		}
 		var (
-			cur     *liveConn // client side of the live connection
-			curSrv  *srvSession
-			prevCli <-chan struct{}
-			skipped int
-			xfer    int
+			cur      *liveConn // client side of the live connection
+			curSrv   *srvSession
+			prevCli  <-chan struct{}
+			skipped  int
+			restarts int
+			xfer     int
 		)
 		alive := func() bool {
 			if cur == nil {
@@ -516,6 +517,19 @@ func runC11(t *testing.T, c *c11Case, known func(string) bool) (out c11Outcome) 
 						fail("client Read still blocked 30s after the server closed the connection")
 					}
 				}
+			case "relay_restart":
+				// the relay process is restarted and has forgotten its
+				// mailboxes; the session's current connection is given up by
+				// both sides, and the next connect has to find its way back
+				// (the server re-creates its mailboxes when it attaches)
+				if !alive() {
+					skipped++
+					continue
+				}
+				r.Restart()
+				restarts++
+				closeBoth()
+				out.reconnects++
 			case "wait":
 				time.Sleep(ms(a.Arg))
 			case "intruder":
@@ -581,6 +595,9 @@ func runC11(t *testing.T, c *c11Case, known func(string) bool) (out c11Outcome) 
 		case <-time.After(90 * time.Second):
 			fail("Server.Close / the accept loop did not finish within 90s")
 		}
+		if restarts > 0 {
+			out.labels = append(out.labels, "relay_restarted_with_state_loss")
+		}
 		if skipped > 0 {
 			out.labels = append(out.labels, "some_actions_skipped")
 		}
@@ -588,7 +605,11 @@ func runC11(t *testing.T, c *c11Case, known func(string) bool) (out c11Outcome) 
 		if out.violation != "" {
 			for _, e := range events {
 				if e.Op != "send" && e.Op != "recv" && len(out.log) < 300 {
-					out.log = append(out.log, fmt.Sprintf("relay %v %s %x %s %s", e.T, e.Op, e.Stream[len(e.Stream)-3:], e.Who, e.Note))
+					tail := e.Stream
+					if len(tail) > 3 {
+						tail = tail[len(tail)-3:]
+					}
+					out.log = append(out.log, fmt.Sprintf("relay %v %s %x %s %s", e.T, e.Op, tail, e.Who, e.Note))
 				}
 			}
 		}
@@ -649,7 +670,7 @@ func genC11(t *rapid.T) *c11Case {
 	c.LateKey = c.ClientMax == 2 && rapid.IntRange(0, 5).Draw(t, "late_key") == 0
 	c.Actions = []sessAction{{Op: "connect", Arg: rapid.SampledFrom([]int{0, 0, 1, 500, 3000}).Draw(t, "first_offset")}}
 	ag := rapid.Custom(func(t *rapid.T) sessAction {
-		op := rapid.SampledFrom([]string{"connect", "connect", "transfer", "transfer", "close_client", "close_server", "wait", "intruder", "connect_early"}).Draw(t, "op")
+		op := rapid.SampledFrom([]string{"connect", "connect", "transfer", "transfer", "close_client", "close_server", "wait", "intruder", "connect_early", "relay_restart"}).Draw(t, "op")
 		var arg int
 		switch op {
 		case "connect_early":
